@@ -178,6 +178,12 @@ def check_term(case):
         if name == 'coupling':
             s, i, j, op_i, op_j, op_str = res
             ijkl, ops, strs = [i, j], [op_i, op_j], [op_str]
+            # the returned sites are either the given ones or (as for the multi-coupling variant, and as required by
+            # add_coupling_term) the given ones translated by whole unit cells such that the first is inside the unit cell
+            if (ijkl[0] - cterm[0][1]) % len(uc):
+                bad('handle_JW:coupling:shift', 'returned sites %s for %s' % (ijkl, cterm))
+                continue
+            ijkl = [k_ - ijkl[0] + cterm[0][1] for k_ in ijkl]
         else:  # (documented to shift the indices such that the first one is inside the unit cell)
             s, ijkl, ops, strs = res
             if not 0 <= ijkl[0] < len(uc) or (ijkl[0] - cterm[0][1]) % len(uc):
@@ -225,18 +231,47 @@ def check_term(case):
 
 
 def check_mposum(case):
-    """One MPO for a sum of many terms (shared graph states) against the dense sum."""
+    """One MPO for a sum of many terms (shared graph states) against the dense sum; the array of prefactors
+    given by the caller is data, not state: no TermList route may change it, and using it again gives the same."""
     from tenpy.networks.mpo import MPOGraph
-    from tenpy.networks.terms import TermList
+    from tenpy.networks.terms import TermList, order_combine_term
     cx = context(case['chain'], case['L'], case.get('seed', 0))
     terms = [[(op, i) for op, i in t] for t in case['terms']]
     rng = np.random.default_rng(case.get('seed', 0) + 17)
     strengths = np.round(rng.uniform(0.5, 1.5, len(terms)), 3) * np.where(np.arange(len(terms)) % 3 == 0, 1j, 1)
-    ref = sum(s * cx.product(t) for s, t in zip(strengths, terms))
-    H = MPOGraph.from_term_list(TermList([list(t) for t in terms], strengths), cx.sites, 'finite', unit_cell_width=cx.L).build_MPO()
+    given = strengths.copy()
+    out = []
+    bad = lambda key, msg: out.append((key, '%s: %s' % (dict(case, terms='%d terms, first %s' % (len(terms), terms[0])), msg)))  # noqa: E731
+    new_list = lambda: TermList([list(t) for t in terms], strengths)  # noqa: E731
+    ref = sum(s * cx.product(t) for s, t in zip(given, terms))
+    H = MPOGraph.from_term_list(new_list(), cx.sites, 'finite', unit_cell_width=cx.L).build_MPO()
     if not close(mpo_dense(H), ref):
-        return [('mposum', '%s: dense MPO of the sum differs from the sum of the dense terms' % (case,))]
-    return []
+        bad('mposum', 'dense MPO of the sum differs from the sum of the dense terms')
+    if not np.array_equal(strengths, given):
+        bad('termlist:strength-modified:from_term_list', 'MPOGraph.from_term_list changed the strength array of the caller')
+    # the same data used a second time, now for an expectation value (only for terms conserving the charges)
+    if not any(term_charge([(op, cx.sites[i]) for op, i in terms[0]])):
+        ev = cx.psi.expectation_value_terms_sum(new_list())[0]
+        if abs(ev - np.vdot(cx.vec, ref @ cx.vec)) > 1e-10:
+            bad('termlist:expectation_value_terms_sum', 'got %r, dense %r (same terms and strength array as for the MPO before)' % (
+                ev, np.vdot(cx.vec, ref @ cx.vec)))
+    strengths[:] = given
+    # order_combine works on the list's own copy; a shifted copy is independent of the original
+    n = len(cx.cell)
+    signs = np.array([order_combine_term(list(t), cx.cell)[1] for t in terms])
+    tl = new_list()
+    sh = tl.shift(n)
+    if sh.terms != [[(op, i + n) for op, i in t] for t in terms] or not np.array_equal(sh.strength, given):
+        bad('termlist:shift', 'shift(%d) is not the shifted copy' % n)
+    sh.order_combine(cx.cell)
+    if not np.array_equal(tl.strength, given) or tl.terms != [list(t) for t in terms]:
+        bad('termlist:shift-aliased', 'order_combine on the shifted copy changed the original list')
+    tl.order_combine(cx.cell)
+    if not close(tl.strength, signs * given) or not close(sh.strength, signs * given):
+        bad('termlist:order_combine', 'strength after order_combine is not sign * strength')
+    if not np.array_equal(strengths, given):
+        bad('termlist:strength-modified:order_combine', 'order_combine changed the strength array of the caller')
+    return out
 
 
 def check_corr(case):
